@@ -206,7 +206,8 @@ func H_C06_History2() {
 }
 
 // H_C06_RefCount: KeyedRefCount over one key: two references added, then a symbolic sequence of
-// three operations out of {release ref A, release ref B, RemoveKey, AddKeyRef}; the key is
+// three operations out of {release ref A, release ref B, RemoveKey, AddKeyRef, release the
+// latest added reference}; the key is
 // present exactly while an unreleased reference exists (RemoveKey drops all of them) and
 // releasing a reference twice counts once.
 func H_C06_RefCount() {
@@ -217,7 +218,10 @@ func H_C06_RefCount() {
 	refB, _, existed := k.AddKeyRef(1)
 	vrt.Assert(existed, "addkeyref-second")
 	aLive, bLive, extra := true, true, 0
-	ops := [3]int{vrt.Int("op0", 0, 3), vrt.Int("op1", 0, 3), vrt.Int("op2", 0, 3)}
+	// the most recently added extra reference can be released too (operation 4), also twice
+	var lastExtra *keyed.KeyedRef[int, int]
+	lastLive := false
+	ops := [3]int{vrt.Int("op0", 0, 4), vrt.Int("op1", 0, 4), vrt.Int("op2", 0, 4)}
 	for i := 0; i < 3; i++ {
 		switch ops[i] {
 		case 0:
@@ -229,12 +233,21 @@ func H_C06_RefCount() {
 		case 2:
 			present := aLive || bLive || extra > 0
 			vrt.Assert(k.RemoveKey(1) == present, "refcount-removekey-existed")
-			aLive, bLive, extra = false, false, 0
-		default:
+			aLive, bLive, extra, lastLive = false, false, 0, false
+		case 3:
 			present := aLive || bLive || extra > 0
-			_, _, ex := k.AddKeyRef(1)
+			ref, _, ex := k.AddKeyRef(1)
 			vrt.Assert(ex == present, "refcount-addkeyref-existed")
 			extra++
+			lastExtra, lastLive = ref, true
+		default:
+			if lastExtra != nil {
+				lastExtra.Release()
+				if lastLive {
+					extra--
+					lastLive = false
+				}
+			}
 		}
 		_, ok := k.GetKey(1)
 		vrt.Assert(ok == (aLive || bLive || extra > 0), "refcount-presence")
